@@ -66,7 +66,11 @@ func daemonRunsOn(ds *appsv1.DaemonSet, node *corev1.Node) bool {
 // build materialises the scenario. Pools failing RuntimeValidate are dropped (counted), as the NodePool validation
 // controller would keep them not Ready.
 func build(s *gen.SchedWorld, c *ev.Ctx) *builtWorld {
-	w := sim.New(sim.Options{Karpenter: karpenterOptions(s.Options)})
+	return buildWith(s, c, sim.Options{Karpenter: karpenterOptions(s.Options)})
+}
+
+func buildWith(s *gen.SchedWorld, c *ev.Ctx, so sim.Options) *builtWorld {
+	w := sim.New(so)
 	b := &builtWorld{W: w, S: s, Pools: map[string]*v1.NodePool{}, Nodes: map[string]*sim.BuiltNode{}, Originals: map[types.UID]*corev1.Pod{}}
 	w.ApplyNodeClass()
 	w.Provider.Default = s.Catalog
